@@ -6,6 +6,12 @@
 (*                                                                         *)
 (* An utterance u (ids 1, 2, ...) has T feature frames, optionally a       *)
 (* per-frame alignment, optionally a reference of R tokens (R = -1: none). *)
+(* T = 0 (a feature file of shape (0, F), hence an empty alignment and no  *)
+(* context window at all) and R = 0 (an empty transcript) are legal data:  *)
+(* such an utterance contributes NO value to the padded / concatenated     *)
+(* tensors, and still it is one of the N utterances of the batch - it      *)
+(* keeps its row (all padding), its size entry 0 and its id                *)
+(* (OneEntryPerUtterance, EmptyUtterancesStay).                            *)
 (* Provenance is readable from every value: frame t of u is 100 u + t,     *)
 (* token r of u is 100 u + r; 0 is the abstract padding value (the harness *)
 (* maps the real padding constants to it, and F filters / (R, 3) rows to   *)
@@ -22,7 +28,9 @@
 EXTENDS Naturals, Integers, Sequences, FiniteSets, TLC, Json
 
 CONSTANTS MaxItems,   \* batch of 1..MaxItems utterances
-          MaxT,       \* feature lengths 1..MaxT
+          MinT,       \* 1, or 0: the batches holding AT LEAST ONE utterance without frames (the others
+                      \* are the MinT = 1 configurations'); kinds "spect" / "window" (a "lang" item has no frames)
+          MaxT,       \* feature lengths MinT..MaxT
           MaxR,       \* reference lengths -1 (none), 0..MaxR
           Kinds,      \* subset of {"spect", "lang", "window"}
           MaxCtx      \* context: left, right in 0..MaxCtx
@@ -113,13 +121,14 @@ Collate ==
 
 ItemSpace(k) ==
   IF k = "lang" THEN [T : {1}, R : 0..MaxR, A : {FALSE}]
-  ELSE IF k = "window" THEN [T : 1..MaxT, R : {0 - 1}, A : BOOLEAN]
-  ELSE [T : 1..MaxT, R : (0 - 1)..MaxR, A : BOOLEAN]
+  ELSE IF k = "window" THEN [T : MinT..MaxT, R : {0 - 1}, A : BOOLEAN]
+  ELSE [T : MinT..MaxT, R : (0 - 1)..MaxR, A : BOOLEAN]
 Init ==
   /\ kind \in Kinds
   /\ \E m \in (IF kind = "wtable" THEN {0} ELSE 1..MaxItems) :
        \E raw \in [1..m -> ItemSpace(kind)] :
-          items = [a \in 1..m |-> [id |-> a, T |-> raw[a].T, R |-> raw[a].R, A |-> raw[a].A]]
+          /\ items = [a \in 1..m |-> [id |-> a, T |-> raw[a].T, R |-> raw[a].R, A |-> raw[a].A]]
+          /\ (MinT = 0 => \E a \in 1..m : raw[a].T = 0)
   /\ sort \in (IF kind = "window" THEN {FALSE} ELSE BOOLEAN)
   /\ left \in (IF kind = "window" THEN 0..MaxCtx ELSE {0})
   /\ right \in (IF kind = "window" THEN 0..MaxCtx ELSE {0})
@@ -136,6 +145,27 @@ Cut(rows, sizes) == [a \in 1..Len(rows) |-> SubSeq(rows[a], 1, sizes[a])]
 
 IdsStay == done => /\ Len(out.ids) = N
                    /\ {out.ids[a] : a \in 1..N} = {items[a].id : a \in 1..N}
+\* every part of the batch that is "per utterance" has exactly one entry per utterance handed in
+OneEntryPerUtterance ==
+  done =>
+     /\ Len(out.ids) = N
+     /\ (kind = "window" => Len(out.wsz) = N)
+     /\ (kind = "lang" => Len(out.rsz) = N /\ Len(out.refs) = N)
+     /\ (kind = "spect" =>
+           /\ Len(out.fsz) = N /\ Len(out.feats) = N
+           /\ (out.hasali => Len(out.alis) = N)
+           /\ (out.hasref => Len(out.rsz) = N /\ Len(out.refs) = N))
+\* an utterance that contributes no value at all (no frames / no tokens) is still delivered: its id is
+\* in the batch, at a row whose reported size is 0
+EmptyUtterancesStay ==
+  done =>
+     \A b \in 1..N :
+        /\ (kind # "lang" /\ items[b].T = 0) =>
+              \E a \in 1..Len(out.ids) :
+                 /\ out.ids[a] = items[b].id
+                 /\ (IF kind = "window" THEN out.wsz ELSE out.fsz)[a] = 0
+        /\ (kind = "lang" /\ items[b].R = 0) =>
+              \E a \in 1..Len(out.ids) : out.ids[a] = items[b].id /\ out.rsz[a] = 0
 \* cutting each padded entry back to its reported size returns the original tensors, row by row id
 CutIsLossless ==
   (done /\ kind # "window") =>
